@@ -55,8 +55,9 @@ theorem canonical_filter_is_denote (nok : NumOK) (doc : J N) (e : Expr) (he : e.
 
 /-- **the lexer reads a spelled-out token sequence back**: for every sequence of lexable tokens (names,
     keywords, decimal literals, string literals without NUL, the punctuation of the language) written with
-    arbitrary white space in front of the first token, at least one white-space character between
-    tokens and arbitrary white space at the end, `NextToken` called repeatedly serves exactly those
+    arbitrary white space in front of the first token, between two tokens either white space or nothing
+    where the second cannot be mistaken for a continuation of the first (`user.name`, `tags[0]`,
+    `a==1`: `FollowOK`), and arbitrary white space at the end, `NextToken` called repeatedly serves exactly those
     tokens and then end-of-input for ever (`SimSrc … (listSrc tokens) positions`) -/
 theorem lexer_reads_spelled_tokens (items : List (Bytes × Token)) (trail : Bytes) (hok : SpellOK items)
     (htrail : isWsList trail) :
@@ -77,6 +78,12 @@ theorem text_parses_to_documented_tree (nok : NumOK) (e : Expr) (he : e.OK nok) 
 theorem canonical_text_parses (nok : NumOK) (e : Expr) (he : e.OK nok) (hl : e.Lex) :
     parse (ofList e.text) nok = .ok e.ast :=
   parse_canonical_text nok e he hl
+
+/-- … and its tight text, with a space only where two tokens would otherwise run together
+    (`user.name == "x" AND tags[0] >= 2`) -/
+theorem tight_text_parses (nok : NumOK) (e : Expr) (he : e.OK nok) (hl : e.Lex) :
+    parse (ofList e.tightText) nok = .ok e.ast :=
+  parse_tight_text nok e he hl
 
 /-- **end to end on text**: the filter built from the canonical text of a well-typed expression accepts a
     document exactly when the expression is true of it — `BuildFilter(text)(doc) = ⟦e⟧(doc)` -/
@@ -122,5 +129,9 @@ example : (Expr.and (.cmp .ge (.field b!"age") (.num b!"18")) (.strop .startsWit
 
 example : (Expr.and (.cmp .ge (.field b!"age") (.num b!"18")) (.strop .startsWith (.field b!"name") b!"J")).text =
     b!"age >= 18 AND name STARTS_WITH \"J\"" := by decide
+
+/-- the tight text of a nested-path expression has no spaces around `.`, `[`, `]` -/
+example : (Expr.and (.cmp .eq (.dot (.field b!"user") b!"name") (.str b!"x")) (.cmp .ge (.index (.field b!"tags") b!"0") (.num b!"2"))).tightText =
+    b!"user.name==\"x\"AND tags[0]>=2" := by decide
 
 end Syzgy.C13
